@@ -8789,18 +8789,20 @@ class NetCDFRead(IORead):
             out = []
         else:
             if variables and out and self.read_vars["has_groups"]:
+                # A name that the flattener could not resolve is kept
+                # as it is, for the compliance checks to report.
                 mapping = self.read_vars["flattener_variables"]
                 if trailing_colon:
                     out = [
                         (
-                            mapping[ncvar[:-1]] + ":"
+                            mapping.get(ncvar[:-1], ncvar[:-1]) + ":"
                             if ncvar.endswith(":")
-                            else mapping[ncvar]
+                            else mapping.get(ncvar, ncvar)
                         )
                         for ncvar in out
                     ]
                 else:
-                    out = [mapping[ncvar] for ncvar in out]
+                    out = [mapping.get(ncvar, ncvar) for ncvar in out]
 
         return out
 
@@ -8938,10 +8940,11 @@ class NetCDFRead(IORead):
                 for key, value in x.copy().items():
                     if keys_are_variables:
                         del x[key]
-                        key = g["flattener_variables"][key]
+                        key = g["flattener_variables"].get(key, key)
 
                     x[key] = [
-                        g["flattener_variables"][ncvar] for ncvar in value
+                        g["flattener_variables"].get(ncvar, ncvar)
+                        for ncvar in value
                     ]
 
         return out
